@@ -1425,6 +1425,16 @@ func (d *Data) storeAndUpdate(ctx *datastore.VersionedCtx, keyStr string, newDat
 		return err
 	}
 
+	// Hold the new values as they will read back from the store: a number written as 3.0
+	// or a list written as [1,2.0] is persisted as 3 and [1,2], so it is compared with the
+	// stored annotation and kept in memory as that integer / integer list, not as a float.
+	if normalized, err := json.Marshal(newData); err == nil {
+		var reread NeuronJSON
+		if err := json.Unmarshal(normalized, &reread); err == nil {
+			newData = reread
+		}
+	}
+
 	d.kvMu.Lock()
 	defer d.kvMu.Unlock()
 
